@@ -245,6 +245,55 @@ def d2(ctx, prog):
             def sh(c):
                 return f'round-key word {c[1]} bit {c[2]}' if isinstance(c, tuple) else ('unknown' if c == 255 else str(c))
             bad.append(f'round index {r}: key bit {k + 1} is taken from {sh(mk[k])}; PC-2 o rot o PC-1 puts {sh(want[k])} there ({len(diff)} of 64 positions differ)')
+    # the enumeration of the unknown bits: the captured candidate vector of every round index, its known cells set to all-0 / all-1 /
+    # alternating values, is handed to the (recursive) enumeration helper under the same interpreter; it must return exactly the
+    # 2^u integers that agree with the known cells (cell i = bit 63 - i) - every position is exercised with both values and
+    # with 'unknown' wherever PC-2 drops it
+    if conv is not None and not und and not bad:
+        ekey = f'{conv.key}::enumeration of unknown bits'
+        patterns = [lambda i: 0, lambda i: 1, lambda i: i & 1, lambda i: (i >> 1) & 1]
+        ebad = []
+        eund = None
+        ncases = 0
+        for r in range(16):
+            itr = KeyInv(prog)
+            try:
+                itr.call(f, kwargs={f.params[0]: cf.Sym('round_key'), f.params[1]: r})
+            except Stop:
+                pass
+            cells = itr.captured
+            for pi, pat in enumerate(patterns):
+                vec = cf.TList([(c if c in (0, 255) else (pat(i) if isinstance(c, tuple) else c)) for i, c in enumerate(cells)])
+                unknown = [i for i, c in enumerate(vec) if c == 255]
+                base = sum(1 << (63 - i) for i, c in enumerate(vec) if c == 1)
+                want = set()
+                for m_ in range(1 << len(unknown)):
+                    want.add(base + sum(1 << (63 - unknown[j]) for j in range(len(unknown)) if (m_ >> j) & 1))
+                ev_ = cf.Interp(prog, max_depth=80, max_steps=5000000)
+                try:
+                    got = ev_.call(conv, (vec,), {})
+                except cf.Unknown as e:
+                    eund = str(e)
+                    break
+                except cf.Raised as e:
+                    ebad.append(f'round index {r}: the enumeration raises {e.kind}')
+                    continue
+                ncases += 1
+                if not isinstance(got, list) or not all(isinstance(x, int) for x in got):
+                    eund = 'the enumeration does not return a list of integers'
+                    break
+                if set(got) != want or len(got) != len(want):
+                    miss = sorted(want - set(got))
+                    ebad.append(f'round index {r} (known bits pattern {pi}): {len(set(got))} distinct candidates returned for {len(unknown)} unknown bits, expected {len(want)}'
+                                + (f'; e.g. {miss[0]:#018x} is missing' if miss else ''))
+            if eund:
+                break
+        if eund:
+            ctx.undecided('C10-D2', ekey, f'enumeration not evaluable: {eund}', conv.where())
+        elif ebad:
+            ctx.fail('C10-D2', ekey, f'{ebad[0]}: the true master key is then not among the candidates for some keys ({len(ebad)} of {ncases} cases differ)', conv.where())
+        else:
+            ctx.ok('C10-D2', ekey, f'{ncases} candidate vectors (16 round indexes x known-bit patterns): exactly the 2^u completions of the known bits are returned', conv.where(), cases=ncases)
     key = f'{f.key}::inverse schedule'
     if und:
         ctx.undecided('C10-D2', key, f'key inversion not evaluable: {und}', f.where())
